@@ -58,7 +58,9 @@ CLAIMS = {
              "render depends on the embedding position of the statement (nonint/flags, incl. the namespace decision for set operations); embedding sites pass "
              "the flags the position table prescribes (embed/site); substituting each position flag in the symbolic "
              "text of every statement builder changes it only by the enclosing brackets / the alias suffix "
-             "(nonint/text).",
+             "(nonint/text); every nested render of a statement builder receives the dialect conventions of the "
+             "incoming context (dialect, quote characters, as_keyword, ...) unchanged, so an embedded sub-query sees "
+             "what it sees stand-alone (embed/convention = the ctx/dialect obligations of C08 for statement builders).",
         note=TRUST + "Position table contracts/spec/positions.py transcribes the property. Placeholder renumbering "
                      "is C04. Known finding: PostgreSQL RETURNING after the sub-query brackets.",
         design="§4.4, §5 C10"),
@@ -134,7 +136,10 @@ CLAIMS = {
              "nested replace_table call or by assignment of the new table, and the rebuilt value is stored in that "
              "slot of the returned object, for every kind of element that is rendered (slots/replace); a result built by "
              "the constructor keeps the receiver's other attributes (slots/preserve); every receiver of a nested "
-             "call has the method (slots/callee); the receiver is untouched and the result is new (slots/frame).",
+             "call has the method (slots/callee); the receiver is untouched and the result is new (slots/frame); every "
+             "concrete row-source class resolves __eq__ to a bool-valued function, because replace_table decides with "
+             "`source == current_table` (slots/eq-bool); slots that reach the text through an intermediate object "
+             "(Criterion.all(self._filters)) count as rendered.",
         note=TRUST + "The homomorphism lemma (slot-wise replacement = construction with the new table) is a paper "
                      "argument.",
         design="§4.6, §5 C16"),
